@@ -284,6 +284,8 @@ impl<'a, D: DependencyProvider> Encoder<'a, D> {
             &self.state.decision_tracker,
         );
         let clause_id = self.state.clauses.alloc(watched_literals, kind);
+        #[cfg(feature = "verif-hooks")]
+        super::verif::requires_candidates(clause_id, &version_set_variables, conflict);
 
         let watched_literals = self.state.clauses.watched_literals[clause_id.to_usize()].as_mut();
 
@@ -353,6 +355,8 @@ impl<'a, D: DependencyProvider> Encoder<'a, D> {
 
             // Mark conflicting clauses
             if conflict {
+                #[cfg(feature = "verif-hooks")]
+                super::verif::conflicting(clause_id);
                 self.conflicting_clauses.push(clause_id);
             }
         }
@@ -405,6 +409,8 @@ impl<'a, D: DependencyProvider> Encoder<'a, D> {
         // If the clause is already conflicting, e.g. we already decided that this
         // solvable must be installed, we add it to the list for later processing
         if self.state.decision_tracker.assigned_value(variable) == Some(true) {
+            #[cfg(feature = "verif-hooks")]
+            super::verif::conflicting(clause_id);
             self.conflicting_clauses.push(clause_id)
         }
 
